@@ -1,7 +1,135 @@
-(* Properties/C09.v — statements only; every proof is `exact <lemma>`. *)
+(* Properties/C09.v — statements only; every proof is `exact <lemma>`.
+   C09: what one side encodes, the other side's parser decodes to the same objects.
+   The tables (fixed_table, lookup_table, qt_*, q_*, function codes) are regenerated from the Rust source on
+   every run; the generic walker (App/Grammar.v) and writers (App/Writers.v) are tied to the code by the
+   `app` engine's differential run. *)
 From Dnp3V Require Import App.Writers App.GrammarProofs App.WritersProofs.
 Open Scope N_scope.
 
-Theorem C09_atake_zero : forall l, atake l 0 = Some ([], l).
-Proof. exact atake_zero. Qed.
-Print Assumptions C09_atake_zero.
+(* P1: SIZE of every fixed-size variation = sum of the widths of the fields its `read` consumes *)
+Theorem C09_size_is_sum_of_fields : forall fi, In fi fixed_table -> fi_size fi = asum (awidths fi).
+Proof. exact size_is_sum_of_fields. Qed.
+Print Assumptions C09_size_is_sum_of_fields.
+
+(* P1: `read` and `write` of every fixed-size variation visit the same fields, same kinds, same order *)
+Theorem C09_read_write_same_order : forall fi, In fi fixed_table -> fi_read fi = fi_write fi.
+Proof. exact read_write_same_order. Qed.
+Print Assumptions C09_read_write_same_order.
+
+(* P1: write the fields (any values within the field widths) then read = the same fields, consuming
+   exactly SIZE bytes *)
+Theorem C09_fixed_codec_round_trip : forall fi xs rest, In fi fixed_table ->
+  Forall2 (fun w x => x < 256 ^ w) (awidths_w fi) xs ->
+  aread_fields (awidths fi) (awrite_fields (awidths_w fi) xs ++ rest) = Some (xs, rest)
+  /\ N.of_nat (length (awrite_fields (awidths_w fi) xs)) = fi_size fi.
+Proof. exact fixed_codec_round_trip. Qed.
+Print Assumptions C09_fixed_codec_round_trip.
+
+(* ... and read any bytes then write = the same bytes (all value bit patterns survive) *)
+Theorem C09_fixed_codec_round_trip_bytes : forall fi l xs r, In fi fixed_table -> abytes_ok l ->
+  aread_fields (awidths fi) l = Some (xs, r) -> l = awrite_fields (awidths_w fi) xs ++ r.
+Proof. exact fixed_codec_round_trip_bytes. Qed.
+Print Assumptions C09_fixed_codec_round_trip_bytes.
+
+(* P1: one header is accepted iff the bytes present are exactly its encoding: group, variation, qualifier,
+   range or count as the tables allow them for this function code, followed by exactly the object bytes
+   they imply (awf_header spells out SIZE*count, ceil(count/8), ceil(count/4), (n+prefix)*count, one
+   attribute, the declared free-format length, nothing for READ ranges; `stop < start` never accepted) *)
+Theorem C09_accept_iff_exact_bytes_header : forall o fc l h rest, abytes_ok l ->
+  (aparse_one o fc l = AOk (h, rest) <-> l = aencode_header h ++ rest /\ awf_header o fc h).
+Proof. exact accept_iff_exact_bytes_header. Qed.
+Print Assumptions C09_accept_iff_exact_bytes_header.
+
+(* P1: the whole fragment is accepted iff it is a concatenation of such headers, every byte consumed, and
+   the iterating second pass yields exactly those headers *)
+Theorem C09_accept_iff_exact_bytes_fragment : forall o fc l hs, abytes_ok l ->
+  ((exists c, avalidate o fc l = AOk c /\ aiter_headers c = hs)
+   <-> l = concat (map aencode_header hs) /\ Forall (awf_header o fc) hs).
+Proof. exact accept_iff_exact_bytes_fragment. Qed.
+Print Assumptions C09_accept_iff_exact_bytes_fragment.
+
+(* P1: the second pass never meets an error after a successful first pass *)
+Theorem C09_second_pass_agrees_with_first : forall o fc l c, avalidate o fc l = AOk c ->
+  aone_pass (length l) o fc l = map AOk (aiter_headers c).
+Proof. exact second_pass_agrees_with_first. Qed.
+Print Assumptions C09_second_pass_agrees_with_first.
+
+(* P1: iterating an accepted header yields exactly `count` objects, indices start .. stop <= 65535 without
+   wrap, identical to (and exhausting) the object bytes the first pass measured *)
+Theorem C09_iterate_agrees_with_validate : forall o fc h, awf_header o fc h ->
+  abytes_ok (apayload_bytes (oh_payload h)) ->
+  aiterate_spec h
+  /\ (forall a b s c, adetails_range (oh_details h) = Some (a, b) -> apayload_range (oh_payload h) = Some (s, c) ->
+        s = a /\ s + c = b + 1 /\ b <= 65535).
+Proof. exact iterate_agrees_with_validate. Qed.
+Print Assumptions C09_iterate_agrees_with_validate.
+
+(* P1: every request the modelled builders write is parsed into what was written *)
+Theorem C09_encode_parse_round_trip : forall o cap seq fc hs bytes,
+  seq < 16 -> fc < 256 -> afunction_known fc = true -> afunction_has_iin fc = false ->
+  Forall (aw_ok o fc) hs -> awrite_request cap seq fc hs = AOk bytes ->
+  exists pf, parse_fragment o bytes = AOk pf
+    /\ pf_header pf = {| ah_control := actl_request seq; ah_function := fc; ah_iin := None |}
+    /\ ato_request (pf_header pf) = None
+    /\ headers_of pf = AOk (concat (map aw_headers hs))
+    /\ pf_raw_objects pf = concat (map aencode_header (concat (map aw_headers hs))).
+Proof. exact encode_parse_round_trip. Qed.
+Print Assumptions C09_encode_parse_round_trip.
+
+(* ---- non-vacuity ---------------------------------------------------------------------------------- *)
+Definition ex_opts := {| ao_zero_length_strings := false |}.
+
+(* the table is not empty and contains multi-field variations *)
+Example ex_table_nonempty : (90 <=? N.of_nat (length fixed_table)) = true
+  /\ exists fi, afixed 50 4 = Some fi /\ In fi fixed_table /\ length (fi_read fi) = 3%nat.
+Proof.
+  split; [vm_compute; reflexivity|]. destruct (afixed 50 4) as [fi|] eqn:E; [|vm_compute in E; discriminate].
+  exists fi. split; [reflexivity|]. split; [apply (afixed_in 50 4 fi E)|].
+  vm_compute in E. inversion E. reflexivity.
+Qed.
+
+(* a response with g1v2 [0..1], g110v2 [65534..65535] and g2v2 prefixed by 16-bit indices is accepted and
+   iterated with the declared indices *)
+Example ex_parse :
+  match parse_fragment ex_opts [192; 129; 0; 0;  1; 2; 0; 0; 1; 129; 1;  110; 2; 1; 254; 255; 255; 255; 1; 2; 3; 4;
+                                 2; 2; 40; 1; 0; 9; 0; 129; 1; 2; 3; 4; 5; 6] with
+  | AOk pf => match headers_of pf with
+              | AOk hs => map alisting hs =
+                  [[(Some 0, [129]); (Some 1, [1])]; [(Some 65534, [1; 2]); (Some 65535, [3; 4])];
+                   [(Some 9, [129; 1; 2; 3; 4; 5; 6])]]
+              | AErr _ => False
+              end
+  | AErr _ => False
+  end.
+Proof. vm_compute. reflexivity. Qed.
+
+(* truncating or extending that fragment by one byte is rejected *)
+Example ex_truncated :
+  (exists e pf, parse_fragment ex_opts [192; 129; 0; 0;  1; 2; 0; 0; 1; 129] = AOk pf /\ headers_of pf = AErr e)
+  /\ (exists e pf, parse_fragment ex_opts [192; 129; 0; 0;  1; 2; 0; 0; 1; 129; 1; 7] = AOk pf /\ headers_of pf = AErr e).
+Proof. split; do 2 eexists; vm_compute; split; reflexivity. Qed.
+
+(* a range with stop < start is rejected *)
+Example ex_invalid_range : exists pf, parse_fragment ex_opts [192; 129; 0; 0;  1; 2; 0; 5; 4] = AOk pf
+  /\ headers_of pf = AErr (OEInvalidRange 5 4).
+Proof. eexists. vm_compute. split; reflexivity. Qed.
+
+(* the hypotheses of the round trip are satisfiable: a class scan, a range scan and two prefixed commands *)
+Example ex_builders : exists bytes,
+  awrite_request 2048 3 1 [WClasses true true true true; WRange16 30 0 7 65535] = AOk bytes
+  /\ Forall (aw_ok ex_opts 1) [WClasses true true true true; WRange16 30 0 7 65535].
+Proof.
+  eexists. split; [vm_compute; reflexivity|]. repeat constructor; try lia; vm_compute; try reflexivity.
+Qed.
+
+Example ex_commands : exists bytes,
+  awrite_request 2048 3 5 [WPrefixed 41 2 1 [(7, [1; 2; 0]); (9, [255; 127; 5])]] = AOk bytes
+  /\ aw_ok ex_opts 5 (WPrefixed 41 2 1 [(7, [1; 2; 0]); (9, [255; 127; 5])]).
+Proof.
+  eexists. split; [vm_compute; reflexivity|]. cbn [aw_ok].
+  split; [lia|]. split; [lia|]. split; [vm_compute; reflexivity|]. split; [left; reflexivity|].
+  split; [vm_compute; discriminate|]. split; [vm_compute; reflexivity|].
+  eexists. split; [vm_compute; reflexivity|].
+  constructor; [|constructor; [|constructor]];
+    (split; [vm_compute; reflexivity|split; [repeat constructor; lia|vm_compute; reflexivity]]).
+Qed.
